@@ -740,6 +740,24 @@ Proof.
   - rewrite B, B1. reflexivity.
 Qed.
 
+Lemma zadd_zadd_get : forall d d' a b l, zget d' (zadd d b (zadd d a l)) = zget d' (zadd d (a + b) l).
+Proof.
+  intros d d' a b l. destruct (Z.eq_dec d' d) as [E|E].
+  - subst. rewrite !zget_zadd_same. lia.
+  - rewrite !zget_zadd_other by assumption. reflexivity.
+Qed.
+(* two mints in one transaction *)
+Lemma mint_issue2_view : forall cf s actor d a1 a2 s',
+  (do s1 <- mint_issue cf s actor d a1; mint_issue cf s1 actor d a2) = Ok s' ->
+  view_pres s s' /\ (cap_ok (s_reg s) -> cap_ok (s_reg s')) /\ 0 < a1 /\ 0 < a2 /\
+  (forall d', supply_of s' d' = zget d' (zadd d (a1 + a2) (s_bank s))).
+Proof.
+  intros cf s actor d a1 a2 s'. destruct (mint_issue cf s actor d a1) as [s1| |] eqn:E1; cbn [bind]; try discriminate.
+  intros E2. destruct (mint_issue_view _ _ _ _ _ _ E1) as (V1 & C1 & P1 & B1). destruct (mint_issue_view _ _ _ _ _ _ E2) as (V2 & C2 & P2 & B2).
+  split; [eapply view_pres_trans; eassumption|]. split; [auto|]. split; [exact P1|]. split; [exact P2|].
+  intros d'. unfold supply_of. rewrite B2, B1. apply zadd_zadd_get.
+Qed.
+
 (* ---------------------------------------------------------------- supply never exceeds the cap *)
 Lemma cap_ok_update : forall reg reg' d t, cap_ok reg -> aget d reg' = Some t ->
   (forall d', d' <> d -> aget d' reg' = aget d' reg) -> (0 < t_cap t -> t_supply t <= t_cap t) -> cap_ok reg'.
@@ -766,6 +784,7 @@ Proof.
   - destruct (prop_upsert_char _ _ _ _ _ _ _ _ _ H) as (Hd & Ho & _ & Hk).
     eapply cap_ok_update; [exact Hc|exact Hd|exact Ho|exact Hk].
   - destruct (mint_issue_view _ _ _ _ _ _ H) as (_ & C & _). auto.
+  - destruct (mint_issue2_view _ _ _ _ _ _ _ H) as (_ & C & _). auto.
   - destruct (mint_burn_view _ _ _ _ _ H) as (_ & C & _). auto.
   - destruct (debit_same _ _ _ _ _ H) as [R _]. rewrite R. exact Hc.
 Qed.
@@ -827,6 +846,7 @@ Proof.
       * unfold offset, reg_supply, supply_of. rewrite Ho, Hb by auto. reflexivity.
       * exists t. split; [rewrite Ho by auto; exact Ht|left; reflexivity].
   - apply VP. destruct (mint_issue_view _ _ _ _ _ _ H) as (V & _). exact V.
+  - apply VP. destruct (mint_issue2_view _ _ _ _ _ _ _ H) as (V & _). exact V.
   - apply VP. destruct (mint_burn_view _ _ _ _ _ H) as (V & _). exact V.
   - destruct (debit_same _ _ _ _ _ H) as [R B]. apply VP, view_pres_same; assumption.
 Qed.
@@ -961,7 +981,7 @@ Qed.
 
 (* ================================================================ where native tokens come from *)
 Lemma step_native_sources : forall cf s o s', step cf s o = Ok s' -> nat_supply s < nat_supply s' ->
-  (exists dt, o = OBlock dt) \/ (exists actor amt, o = OMintIssue actor native amt).
+  (exists dt, o = OBlock dt) \/ (exists actor amt, o = OMintIssue actor native amt) \/ (exists actor a1 a2, o = OMintIssue2 actor native a1 a2).
 Proof.
   intros cf s o s' H Hlt. unfold nat_supply, supply_of in Hlt. destruct o; cbn [step] in H.
   - left. eexists. reflexivity.
@@ -974,7 +994,10 @@ Proof.
     + destruct (upsert_msg_new _ _ _ _ _ _ _ _ _ _ _ _ H Et) as (_ & _ & _ & Hb & _). rewrite Hb in Hlt. lia.
   - destruct (prop_upsert_char _ _ _ _ _ _ _ _ _ H) as (_ & _ & Hb & _). rewrite Hb in Hlt. lia.
   - destruct (mint_issue_view _ _ _ _ _ _ H) as (_ & _ & _ & Hb). rewrite Hb in Hlt.
-    destruct (Z.eq_dec d native) as [E|E]; [subst d; right; eexists; eexists; reflexivity|].
+    destruct (Z.eq_dec d native) as [E|E]; [subst d; right; left; eexists; eexists; reflexivity|].
+    rewrite zget_zadd_other in Hlt by auto. lia.
+  - destruct (mint_issue2_view _ _ _ _ _ _ _ H) as (_ & _ & _ & _ & Hb). unfold supply_of in Hb. rewrite Hb in Hlt.
+    destruct (Z.eq_dec d native) as [E|E]; [subst d; right; right; do 3 eexists; reflexivity|].
     rewrite zget_zadd_other in Hlt by auto. lia.
   - destruct (mint_burn_view _ _ _ _ _ H) as (_ & _ & Hp & Hb). rewrite Hb in Hlt.
     destruct (Z.eq_dec d native) as [E|E]; [subst d; rewrite zget_zadd_same in Hlt; lia|].
@@ -999,8 +1022,9 @@ Qed.
 Lemma native_only_blocks_lemma : forall cf, cf_mint_native_refused cf = true ->
   forall s o s', step cf s o = Ok s' -> nat_supply s < nat_supply s' -> exists dt, o = OBlock dt.
 Proof.
-  intros cf Hcf s o s' H Hlt. destruct (step_native_sources _ _ _ _ H Hlt) as [B|(actor & amt & E)]; [exact B|].
-  subst o. cbn [step] in H. unfold mint_issue in H. rewrite Hcf in H. cbn in H. discriminate.
+  intros cf Hcf s o s' H Hlt. destruct (step_native_sources _ _ _ _ H Hlt) as [B|[(actor & amt & E)|(actor & a1 & a2 & E)]]; [exact B| |].
+  - subst o. cbn [step] in H. unfold mint_issue in H. rewrite Hcf in H. cbn in H. discriminate.
+  - subst o. cbn [step] in H. unfold mint_issue at 1 in H. rewrite Hcf in H. cbn in H. discriminate.
 Qed.
 
 (* inside a block: inflation first, then UBI; nothing else *)
@@ -1361,7 +1385,7 @@ Qed.
 (* every accepted model operation other than a block and the (refuted) native MintIssue passes the
    origin clause *)
 Definition mints_native_by_message (o : op) : bool :=
-  match o with OMintIssue _ d _ => d =? native | _ => false end.
+  match o with OMintIssue _ d _ => d =? native | OMintIssue2 _ d _ _ => d =? native | _ => false end.
 Definition is_block (o : op) : bool := match o with OBlock _ => true | _ => false end.
 Lemma c13_chk_sound_origin_lemma : forall cf s o,
   is_block o = false -> mints_native_by_message o = false ->
@@ -1370,5 +1394,89 @@ Proof.
   intros cf s o Hb Hm. unfold chk_origin, step_total.
   destruct (step cf s o) as [s'| |] eqn:E; try lia.
   destruct (Z_lt_le_dec (nat_supply s) (nat_supply s')) as [L|L]; [|lia].
-  destruct (step_native_sources _ _ _ _ E L) as [(dt & ->)|(actor & amt & ->)]; cbn in *; discriminate.
+  destruct (step_native_sources _ _ _ _ E L) as [(dt & ->)|[(actor & amt & ->)|(actor & a1 & a2 & ->)]]; cbn in *; discriminate.
+Qed.
+
+(* ================================================================ the annual gate, record by record
+   Inside one block every UBI mint happens with the gate still open at the supply reached just before
+   it -- the inflation of the same block and the payouts of the records processed earlier included.
+   (Two records falling due together are NOT both checked against the allowance left at block start.) *)
+Lemma process_ubi_frame : forall cf s u s', process_ubi cf s u = Ok s' ->
+  s_ysnap s' = s_ysnap s /\ s_params s' = s_params s /\ s_now s' = s_now s.
+Proof.
+  intros cf s u s'. unfold process_ubi.
+  destruct (inflation_possible _ _ _ _) as [ip| |]; cbn [bind]; try discriminate.
+  destruct (negb ip); [intros H; inversion H; auto|].
+  set (s1 := set_ubis s _).
+  match goal with |- (do todo <- ?X; _) = _ -> _ => destruct X as [todo| |] end; cbn [bind]; try discriminate.
+  destruct todo as [amt|]; [|intros H; inversion H; subst; cbn; auto].
+  destruct (amt <? 0); [discriminate|]. destruct (amt =? 0); [discriminate|].
+  destruct (reg_mint s1 native amt) as [s2| |] eqn:EM; cbn [bind]; try discriminate.
+  destruct (aget (u_pool u) (s_pools s2)); [|discriminate].
+  intros H; inversion H; subst s'; clear H. destruct (reg_mint_supply _ _ _ _ EM) as (_ & _ & _ & Y & P & N & _).
+  cbn. subst s1. cbn in *. auto.
+Qed.
+
+Lemma ubi_mints_gate_lemma : forall cf us s, 0 <= p_maxann (s_params s) ->
+  chk_ubi_gate (s_ysnap s) (s_params s) (s_now s) (nat_supply s) (ubi_mints cf us s) = true.
+Proof.
+  intros cf. induction us as [|u r IH]; intros s Hm; cbn [ubi_mints chk_ubi_gate]; [reflexivity|].
+  destruct (ubi_due cf (s_now s) u); [|apply IH; exact Hm].
+  destruct (process_ubi cf s u) as [s'| |] eqn:E; [|apply IH; exact Hm|reflexivity].
+  destruct (process_ubi_frame _ _ _ _ E) as (Y & P & N).
+  destruct (process_ubi_view _ _ _ _ E) as (_ & _ & Hle).
+  specialize (IH s'). rewrite Y, P, N in IH.
+  destruct (nat_supply s' =? nat_supply s) eqn:Eq.
+  - cbn [app]. assert (Q : nat_supply s' = nat_supply s) by lia. rewrite Q in IH. apply IH. exact Hm.
+  - cbn [app chk_ubi_gate].
+    assert (G : spec_gate_closed (s_ysnap s) (p_maxann (s_params s)) (nat_supply s) (s_now s) = false).
+    { destruct (spec_gate_closed _ _ _ _) eqn:G; [|reflexivity].
+      pose proof (gate_closed_blocks _ _ _ _ Hm G) as Hn. apply (process_ubi_blocked cf s u s' Hn) in E. subst s'. lia. }
+    rewrite G. cbn [negb andb].
+    replace (0 <? nat_supply s' - nat_supply s) with true by lia. cbn [andb].
+    replace (nat_supply s + (nat_supply s' - nat_supply s)) with (nat_supply s') by lia. apply IH. exact Hm.
+Qed.
+
+Lemma zsum_app : forall a b, zsum (a ++ b) = zsum a + zsum b.
+Proof.
+  induction a as [|x a IHa]; intros b; [reflexivity|].
+  change (zsum ((x :: a) ++ b)) with (x + zsum (a ++ b)). change (zsum (x :: a)) with (x + zsum a). rewrite IHa. lia.
+Qed.
+
+Lemma ubi_mints_sum : forall cf us s s', ubi_end cf us s = Ok s' -> zsum (ubi_mints cf us s) = nat_supply s' - nat_supply s.
+Proof.
+  intros cf. induction us as [|u r IH]; intros s s'; cbn [ubi_end ubi_mints].
+  - intros H; inversion H; subst. cbn. lia.
+  - destruct (ubi_due cf (s_now s) u); [|apply IH].
+    destruct (process_ubi cf s u) as [s1| |] eqn:E; [|apply IH|discriminate].
+    intros H. specialize (IH _ _ H).
+    rewrite zsum_app, IH. destruct (nat_supply s1 =? nat_supply s) eqn:Eq; cbn; lia.
+Qed.
+
+(* block level: after the inflation of the block (state s1) the per-record mints pass the gate test
+   and add up to the UBI part of the block's supply growth *)
+Lemma block_ubi_gate_lemma : forall cf s dt s1 s2 s3, 0 <= p_maxann (s_params s) ->
+  block_parts cf s dt = Ok (s1, s2, s3) ->
+  chk_ubi_gate (s_ysnap s) (s_params s) (s_now s + dt) (nat_supply s1) (ubi_mints cf (s_ubis s1) s1) = true /\
+  zsum (ubi_mints cf (s_ubis s1) s1) = nat_supply s2 - nat_supply s1.
+Proof.
+  intros cf s dt s1 s2 s3 Hm. unfold block_parts.
+  set (s0 := set_time s (s_now s + dt) (s_height s + 1)).
+  assert (A : forall x, (if 1 <? s_height s0 then allocate s0 else Ok s0) = Ok x ->
+              s_ysnap x = s_ysnap s /\ s_params x = s_params s /\ s_now x = s_now s + dt).
+  { intros x. destruct (1 <? s_height s0).
+    - unfold allocate. destruct (inflation_possible _ _ _ _) as [ip| |]; cbn [bind]; try discriminate.
+      destruct (negb ip); [intros H; inversion H; subst; auto|].
+      destruct (target_supply _ _ _ _) as [tgt| |]; cbn [bind]; try discriminate.
+      destruct (0 <? _).
+      + destruct (reg_mint s0 native _) as [y| |] eqn:EM; try discriminate.
+        intros H; inversion H; subst y. destruct (reg_mint_supply _ _ _ _ EM) as (_ & _ & _ & Y & P & N & _). auto.
+      + intros H; inversion H; subst; auto.
+    - intros H; inversion H; subst; auto. }
+  destruct (if 1 <? s_height s0 then allocate s0 else Ok s0) as [x| |]; cbn [bind]; try discriminate.
+  destruct (A x eq_refl) as (Y & P & N).
+  destruct (ubi_end cf (s_ubis x) x) as [y| |] eqn:EU; cbn [bind]; try discriminate.
+  intros H; inversion H; subst s1 s2 s3; clear H. split.
+  - pose proof (ubi_mints_gate_lemma cf (s_ubis x) x) as G. rewrite Y, P, N in G. apply G. exact Hm.
+  - apply ubi_mints_sum. exact EU.
 Qed.
